@@ -46,7 +46,7 @@ func seqWords(alpha, maxLen int, mine func(i int64) bool, fn func(word []int) bo
 }
 
 type c13Op struct {
-	Kind    int  // 0 define, 1 data, 2 compressed data
+	Kind    int // 0 define, 1 data, 2 compressed data
 	Local   byte
 	Variant int // for define
 }
@@ -214,10 +214,10 @@ func c13Run(prefix int, ops []c13Op) (stream []byte, msg string) {
 }
 
 type c13Replay struct {
-	Prefix int      `json:"prefix_variant"`
-	Ops    []c13Op  `json:"ops"`
-	Word   string   `json:"word"`
-	Hex    string   `json:"stream_hex"`
+	Prefix int     `json:"prefix_variant"`
+	Ops    []c13Op `json:"ops"`
+	Word   string  `json:"word"`
+	Hex    string  `json:"stream_hex"`
 }
 
 func c13Alphabet(locals []byte) []c13Op {
